@@ -639,6 +639,54 @@ func natLayers(tier string) []Layer {
 			},
 		})
 	}
+	// N9: every divisor length in a contiguous range (the depth of the recursion, the sizes of its
+	// scratch tables and the block size depend on the length alone)
+	{
+		lo, hi := 95, 420
+		if thorough {
+			hi = 1700
+		}
+		const per = 6
+		layers = append(layers, Layer{
+			Name:   "N9-div-every-length",
+			Units:  (hi - lo + per) / per,
+			Bounds: fmt.Sprintf("u = q·v + r for every len(v) in %d..%d, len(q) in {len(v)/2+1, len(v)+3, 2·len(v)+1 (≤ 600 words)}, v = 7·10^18 then words 1234567890123456789+i, q = words 9876543210987654321−i, r in {0, v−1}, clean and dirty buffers", lo, hi),
+			Run: func(c *Ctx, u int) {
+				installAdvPool(4096)
+				for n := lo + u*per; n < lo+(u+1)*per && n <= hi; n++ {
+					v := make([]uint64, n)
+					for i := range v {
+						v[i] = 1234567890123456789 + uint64(i)
+					}
+					v[n-1] = 7 * (BW / 10)
+					vm1 := refSub(v, []uint64{1})
+					for _, ql := range []int{n/2 + 1, n + 3, 2*n + 1} {
+						if ql > 600 && ql != n/2+1 {
+							continue
+						}
+						if c.Done() {
+							return
+						}
+						q := make([]uint64, ql)
+						for i := range q {
+							q[i] = 9876543210987654321 - uint64(i)
+						}
+						p := refMul(q, v)
+						for _, dirty := range []bool{false, true} {
+							natDivDirty = dirty
+							tg := fmt.Sprintf("len(v)=%d len(q)=%d", n, ql)
+							if dirty {
+								tg += " dirty-buffers"
+							}
+							natDivCase(c, p, v, tg+" r=0")
+							natDivCase(c, refAdd(p, vm1), v, tg+" r=v-1")
+						}
+						natDivDirty = false
+					}
+				}
+			},
+		})
+	}
 	// N7: recursive division with extreme partial remainders at a block boundary:
 	// u = ((qhi·b^B + blk)·v + rem)·b^m + low, B = len(v)/2 (the recursion's block size),
 	// so that after the block `blk` the running remainder is rem (v−1: every estimate of
